@@ -48,6 +48,11 @@ def O := scalarOps
 def pointItem (enc : Bytes) : Item := ⟨str "*curve.Secp256k1Point", enc⟩
 
 def handle (op : String) (inp : Json) : Json :=
+  -- an honest run of a layer that returned an error (the harness passes it on as the observation): never expected - the
+  -- theorems say honest runs complete (random_ot_response_complete, kos_check_complete, multiply_correct, ...)
+  if jstr inp "obsErr" != "" && op != "mulseq" && op != "extbig" then
+    jobj [("recomputed", false), ("rel", false), ("check", false), ("choice", false), ("sum", false),
+          ("err", "model: an honest run never aborts")] else
   match op with
   | "bitat" =>
     let i := jnat inp "i"
